@@ -52,11 +52,41 @@ Theorem C12_lookup_refines_spec : forall (C : Type) (holds : C -> request -> boo
 Proof. exact @lookup_refines_spec. Qed.
 Print Assumptions C12_lookup_refines_spec.
 
-(* The executable property evaluated by the harness (documented basic choice doc_route of C11 + first advanced
-   match) holds of the model on every well-formed input; this composes C11_get_refines_doc with the above. *)
-Theorem C12_prop_of_model : forall i, dec_C12 i <> None -> prop_C12 i (run_C12 i) = true.
+(* PER-PRODUCT ISOLATION.  The route table holds one basic tree and one advanced list per product
+   (`lookup_table` indexes both by req.Route.Product).  The answer for a request of product p is computed from p's
+   own entry e alone, whatever other products (pre, post) the table contains and whatever their rules are: a request
+   that misses its own product's basic rules can never be routed by another product's rule. *)
+Theorem C12_products_isolated : forall (C : Type) (holds : C -> request -> bool)
+    (pre post : list (product_entry C)) e p req,
+  fst e = p -> find_product p pre = None ->
+  lookup_table holds (pre ++ e :: post) p req = lookup_cluster holds (fst (snd e)) (snd (snd e)) req.
+Proof. exact @products_isolated. Qed.
+Print Assumptions C12_products_isolated.
+Theorem C12_other_products_irrelevant : forall (C : Type) (holds : C -> request -> bool)
+    (pre pre' post post' : list (product_entry C)) e p req,
+  fst e = p -> find_product p pre = None -> find_product p pre' = None ->
+  lookup_table holds (pre ++ e :: post) p req = lookup_table holds (pre' ++ e :: post') p req.
+Proof. exact @other_products_irrelevant. Qed.
+Print Assumptions C12_other_products_irrelevant.
+(* A product that appears in neither map gets ErrNoProductRule. *)
+Theorem C12_unknown_product : forall (C : Type) (holds : C -> request -> bool) (tbl : list (product_entry C)) p req,
+  find_product p tbl = None -> lookup_table holds tbl p req = CErrNoProductRule.
+Proof. exact @unknown_product. Qed.
+Print Assumptions C12_unknown_product.
+
+(* CENTRAL THEOREM.  The executable property the harness evaluates on the implementation's observations holds of the
+   model on every well-formed input: a list of reload stages, each a whole route table with several products and
+   several requests (possibly with a nil URL); each request is answered from the rules written under its own product
+   in the current stage (documented basic choice doc_route of C11, else first advanced match, else error).  This
+   composes C11_get_refines_doc with the theorems above.  There is no known-finding class (kf_C12 = 0). *)
+Theorem C12_prop_of_model : forall i, wf_C12 i = true -> kf_C12 i = 0 -> prop_C12 i (run_C12 i) = true.
 Proof. exact prop_C12_of_model. Qed.
 Print Assumptions C12_prop_of_model.
+(* a corpus case (corpus/C12/examples.case, "wf-example") is well-formed *)
+Example C12_wf_example :
+  wf_C12 (VL [VL [VL [VL [VB [112]; VL []; VL [VL [VL [VZ 0; VL []; VB [68]]]]]];
+                  VL [VL [VB [112]; VB [104]; VB [47]; VB [71;69;84]; VZ 1]; VL [VB [113]; VB [104]; VB [47]; VB [71;69;84]; VZ 0]]]]) = true.
+Proof. exact eq_refl. Qed.
 
 (* Non-vacuity: basic {www.a.com /a* -> B ; www.c.com * -> ADVANCED_MODE}, advanced [POST -> P ; /x -> X ; default -> D]. *)
 From Coq Require Import String.
@@ -64,10 +94,18 @@ Local Open Scope string_scope.
 Import BasicRouteProofs.
 Example C12_examples :
   ex_basic <> None /\
-  lookup_cluster cond_holds ex_basic ex_adv (mkReq (b "www.a.com:8080") (b "/a/1") (b "POST")) = COk (b "B") /\
-  lookup_cluster cond_holds ex_basic ex_adv (mkReq (b "www.c.com") (b "/x") (b "POST")) = COk (b "P") /\
-  lookup_cluster cond_holds ex_basic ex_adv (mkReq (b "www.c.com") (b "/x") (b "GET")) = COk (b "X") /\
-  lookup_cluster cond_holds ex_basic ex_adv (mkReq (b "www.a.com") (b "/b") (b "GET")) = COk (b "D") /\
-  lookup_cluster cond_holds ex_basic (Some [(CMethodIn [b "POST"], b "P")]) (mkReq (b "www.a.com") (b "/b") (b "GET")) = CErrNoMatchRule /\
-  lookup_cluster cond_holds ex_basic None (mkReq (b "www.c.com") (b "/") (b "GET")) = CErrNoProductRule.
+  lookup_cluster cond_holds ex_basic ex_adv (mkReq (b "www.a.com:8080") (b "/a/1") (b "POST") true) = COk (b "B") /\
+  lookup_cluster cond_holds ex_basic ex_adv (mkReq (b "www.c.com") (b "/x") (b "POST") true) = COk (b "P") /\
+  lookup_cluster cond_holds ex_basic ex_adv (mkReq (b "www.c.com") (b "/x") (b "GET") true) = COk (b "X") /\
+  lookup_cluster cond_holds ex_basic ex_adv (mkReq (b "www.a.com") (b "/b") (b "GET") true) = COk (b "D") /\
+  lookup_cluster cond_holds ex_basic (Some [(CMethodIn [b "POST"], b "P")]) (mkReq (b "www.a.com") (b "/b") (b "GET") true) = CErrNoMatchRule /\
+  lookup_cluster cond_holds ex_basic None (mkReq (b "www.c.com") (b "/") (b "GET") true) = CErrNoProductRule.
 Proof. exact ex_lookups. Qed.
+(* two products over the same hosts: the same request is a basic hit under "pa" and falls to "pb"'s own advanced
+   rules under "pb"; a miss under "pa" (no advanced rules) is an error and does not borrow "pb"'s default rule *)
+Example C12_isolation_example :
+  lookup_table cond_holds ex_table (b "pa") (mkReq (b "www.a.com") (b "/a/1") (b "GET") true) = COk (b "B") /\
+  lookup_table cond_holds ex_table (b "pb") (mkReq (b "www.a.com") (b "/a/1") (b "GET") true) = COk (b "D") /\
+  lookup_table cond_holds ex_table (b "pa") (mkReq (b "www.a.com") (b "/zzz") (b "GET") true) = CErrNoProductRule /\
+  lookup_table cond_holds ex_table (b "pc") (mkReq (b "www.a.com") (b "/a/1") (b "GET") true) = CErrNoProductRule.
+Proof. exact ex_isolation. Qed.
